@@ -162,7 +162,13 @@ class C05(Prop):
 
     def oracle(self, name, ops, go):
         out = []
-        for cops, cgo in cases(ops, go):
+        # the proved model's answers on the same operations: the reference for WHICH request the current target dictates when the
+        # control algorithm steps from its previous request (limited step, PID): a request is a function of the controller's
+        # own history, never of what a third party left in the register
+        lean = getattr(self, "lean_out", None) if name == "interfere" else None
+        lean_cases = [lc for _, lc in cases(ops, lean)] if lean else []
+        for ci, (cops, cgo) in enumerate(cases(ops, go)):
+            clean = lean_cases[ci] if ci < len(lean_cases) else None
             if len(cops) < 2 or not cops[1].startswith("w.new"):
                 continue
             a = kv(cops[1])
@@ -192,6 +198,12 @@ class C05(Prop):
                     out.append(viol("a control cycle returned without requesting anything (the fan was not taken over, no PWM written)", cops, cgo, upto=i))
                     break
                 t = int(post["last"])
+                if clean is not None and i < len(clean) and clean[i].startswith("ok") and not blind:
+                    lt = kv(clean[i]).get("last", "-")
+                    if lt.lstrip("-").isdigit() and int(lt) != t:
+                        out.append(viol(f"the cycle requested {t}; the current target dictates {lt} (the control algorithm steps from fan2go's own previous "
+                                        f"request; reference: the proved model on the same operations)", cops, cgo, upto=i))
+                        break
                 cands = {m[k] for k in keys if nearest_ok(keys, t, k)}
                 if int(post["pwm"]) not in cands:
                     out.append(viol(f"after the cycle the PWM register shows {post['pwm']}, the target {t} dictates {sorted(cands)}", cops, cgo, upto=i))
